@@ -72,6 +72,27 @@ def judge_branches(part, mk, fn, k, base, res, trace, sp, imp):
         if trace.false_distances.get(pid) == 0.0:
             rep.add((meta.line_no, False))
     mon = {(ln, o) for (_n, ln, _op, o) in branches}
+    # the goal objects the search and the reports use must say the same as the distances in the trace
+    try:
+        import pynguin.ga.coveragegoals as _bg
+        from pynguin.testcase.execution_result import ExecutionResult as _ER
+        _res = _ER()
+        _res.execution_trace = trace
+        rep_goals = set()
+        for g_ in _bg.BranchGoalPool(sp).branch_coverage_goals:
+            pid_ = getattr(g_, "predicate_id", None)
+            if pid_ is None or pid_ not in sp.existing_predicates or sp.existing_predicates[pid_].line_no in imp_lines:
+                continue
+            if pid_ in trace.executed_predicates and g_.is_covered(_res):
+                rep_goals.add((sp.existing_predicates[pid_].line_no, g_.value))
+        if rep_goals != rep:
+            part.violation("the (predicate, outcome) pairs reported as covered are exactly the conditional-jump outcomes the interpreter took",
+                           f"goal-objects-differ:{fn}", {"function": fn, "vector": k, "metrics": mk,
+                                                         "covered_by_BranchGoal.is_covered_only": sorted(rep_goals - rep, key=repr),
+                                                         "covered_by_zero_distance_only": sorted(rep - rep_goals, key=repr)},
+                           target="pynguin.ga.coveragegoals:BranchGoal.is_covered")
+    except ImportError:
+        pass
     # the entry of a branch-less code object is reported exactly when the interpreter entered that code object
     if r0[0] == res[0] and r0[1] == res[1] and hasattr(lines, "entered"):
         branchless = {cid: (sp.existing_code_objects[cid].code_object.co_name, sp.existing_code_objects[cid].code_object.co_firstlineno)
